@@ -46,6 +46,10 @@ func (w *walker) walk(t int, depth int) {
 			return
 		}
 		n := int(binary.BigEndian.Uint32(w.b[w.off-4:]))
+		if n >= 1<<31 { // negative size: rejected by its sign, nothing is requested
+			w.bad = true
+			return
+		}
 		w.req(n)
 	case STRUCT:
 		for !w.bad {
@@ -67,6 +71,10 @@ func (w *walker) walk(t int, depth int) {
 		}
 		kt, vt := int(w.b[w.off-6]), int(w.b[w.off-5])
 		n := int(binary.BigEndian.Uint32(w.b[w.off-4:]))
+		if n >= 1<<31 {
+			w.bad = true
+			return
+		}
 		if FixedSize(kt) > 0 && FixedSize(vt) > 0 {
 			w.req(n * (FixedSize(kt) + FixedSize(vt)))
 			return
@@ -87,6 +95,10 @@ func (w *walker) walk(t int, depth int) {
 		}
 		et := int(w.b[w.off-5])
 		n := int(binary.BigEndian.Uint32(w.b[w.off-4:]))
+		if n >= 1<<31 {
+			w.bad = true
+			return
+		}
 		if FixedSize(et) > 0 {
 			w.req(n * FixedSize(et))
 			return
